@@ -22,11 +22,12 @@ PROP = 'C13'
 THEOREMS = [
     'C13.shift_between_planes', 'C13.shifts_complete',
     'C13.sizes_even_symmetric', 'C13.sizes_refuses_odd',
-    'C13.reference_is_shifted_crystal', 'C13.monopole_keeps_atoms', 'C13.monopole_pbc',
+    'C13.reference_is_shifted_crystal', 'C13.monopole_keeps_atoms', 'C13.monopole_pbc', 'C13.monopole_wrapped',
     'C13.boundary_iff_outside_box', 'C13.boundary_iff_outside_cylinder', 'C13.boundary_zero_width',
     'C13.uvws_zone_law', 'C13.uvws_right_handed',
     'C13.linear_field_change', 'C13.linear_field_one_burgers',
     'C13.array_old_id', 'C13.array_deletion_count_partial', 'C13.tilted_det', 'C13.expected_edge_orthogonal',
+    'C13.array_kept_boundary_atoms_apart',
 ]
 PARTIAL = {
     'array deletion count': 'array_deletion_count_partial proves that an accepted array has removed exactly `expected` atoms '
@@ -34,9 +35,12 @@ PARTIAL = {
     'expected_edge_orthogonal that natoms(1 - V\'/V) = natoms |b.m| / (2 L_m) for an orthogonal box; that the number of '
     'geometric duplicates found by the distance test equals this number is the guard `found == expected` of the code, '
     'not a theorem about the lattice (it fails for cells shorter than a few Burgers vectors, where the code refuses)',
-    'no overlapping atoms across the periodic directions': 'not a theorem: it depends on the lattice being commensurate with '
+    'no overlapping atoms across the periodic directions': 'array_kept_boundary_atoms_apart proves that in the linear test '
+    'system every kept atom of the boundary set is at least `cutoff` (minimum image) from every later boundary atom and '
+    'that exactly the boundary atoms with a later one within the cutoff are removed; for the final (blended) system and '
+    'for atoms outside the boundary set it is not a theorem: it depends on the lattice being commensurate with '
     'the tilted cell and on the duplicate cutoff; evaluated on the real results by the oracle (all pairs through a periodic '
-    'image, threshold min(cutoff, 0.45 nearest-neighbour distance))',
+    'image, threshold min(cutoff, 0.3 nearest-neighbour distance))',
     'disregistry accumulates to b': 'proved for the linear field (linear_field_one_burgers: exactly b from face to face, '
     'linear_field_change in between); for the elastic field it is C12.burgers_closure up to the tail beyond the finite '
     'width, which is only bounded numerically here: |error| <= 6 |b| (h/(pi X_left) + h/(pi X_right)) + 0.02 |b| '
@@ -329,6 +333,8 @@ def gen_config(rng, d, kind, nmax=220):
         cfg['shiftscale'] = True
     elif q < 0.70 and kind == 'array':
         cfg['shift'] = [0.0, 0.0, 0.0]                       # atoms on the slip plane (the cell has an atom at 0)
+    else:
+        cfg['shiftindex'] = 0                                # (always explicit: the object keeps the last shift it was given)
     q = rng.random()
     if q < 0.45:
         c = [0.0, 0.0, 0.0]
@@ -645,6 +651,16 @@ def _correspond_case(ctx, case, raw, ncfg, stats, jobs):
             uv = np.array([[2 * r[0] + r[1], 2 * r[1] + r[0], r[3]] for r in uv])
         if np.abs(uv.ravel() - np.array([float(x) for x in conv])).max() > 1e-9:
             ctx.disagree('cells:uvws-conv', f'uvws {np.asarray(d.uvws).tolist()} vs model {[str(x) for x in conv]}', info)
+        if stats['cells'] % 4 == 0:
+            # the relational model (used when float ties decide) accepts the functional model's answer and rejects a
+            # non-reduced in-plane vector
+            v1 = ctx.driver.ask(cells_line(case, ucell, 'cellsvalid', ' ' + ' '.join(map(str, U)) + ' 1 100000000'))
+            bad = list(U)
+            bad[3 * motion:3 * motion + 3] = [2 * x for x in bad[3 * motion:3 * motion + 3]]
+            v2 = ctx.driver.ask(cells_line(case, ucell, 'cellsvalid', ' ' + ' '.join(map(str, bad)) + ' 1 100000000'))
+            ctx.stats.case('cells:relational-selfcheck', canon, nontrivial=False)
+            if v1 != '1' or not v2.startswith('0'):
+                ctx.disagree('cells:relational', f'relational model: own answer -> {v1}, non-reduced vector -> {v2}', info)
     # ---- shifts --------------------------------------------------------------------------------
     W = d.rcell.box.vects[d.cutindex, d.cutindex]
     so = ctx.driver.ask('shifts 8 %s %s %s' % (cm.fr(TOL), cm.fr(W), cm.frs(np.asarray(d.rcell.atoms.pos)[:, d.cutindex])))
@@ -653,6 +669,7 @@ def _correspond_case(ctx, case, raw, ncfg, stats, jobs):
         ctx.disagree('shifts:refusal', f'model refuses the shift list: {so}', info)
     else:
         ms = [float(F(t)) for t in so.split(';')[0].split()]
+        d._c13_shifts = ms
         sh = np.asarray(d.shifts, dtype=float)
         other = [i for i in range(3) if i != d.cutindex]
         if len(ms) != len(sh) or np.abs(sh[:, d.cutindex] - np.array(ms)).max() > 1e-9 * max(1.0, W) \
@@ -728,6 +745,20 @@ def _correspond_config(ctx, case, raw, ucell, d, cfg, stats, jobs):
         return                                            # shiftindex out of range / complex elastic field
     shift = np.asarray(d.shift, dtype=float)
     qs, center, width = _resolved(d, cfg, ucell)
+    # set_shift: an explicit shift is taken as given (or times the rcell vectors), an index selects from the model's list
+    ms = getattr(d, '_c13_shifts', None)
+    if res[0] == 'ok' or res[1] not in ('type',):
+        exp = None
+        if cfg.get('shift') is not None:
+            exp = np.asarray(cfg['shift'], dtype=float)
+            if cfg.get('shiftscale'):
+                exp = exp.dot(np.asarray(d.rcell.box.vects))
+        elif cfg.get('shiftindex') is not None and ms:
+            exp = np.zeros(3)
+            exp[d.cutindex] = ms[cfg['shiftindex']]
+        if exp is not None and np.abs(shift - exp).max() > 1e-9 * max(1.0, float(np.abs(exp).max())):
+            ctx.disagree('shift:resolution', f'{label}: shift used {shift.tolist()}, model {exp.tolist()}', info)
+            return
     # multipliers first (cheap, also covers the TypeError refusal)
     sm = cfg.get('sizemults')
     sline = 'sizes %d %s %s' % (d.lineindex, ' '.join(['-'] * 3 if sm is None else [str(int(x)) for x in sm]),
@@ -1389,7 +1420,7 @@ def _oracle_array(ctx, np, case, raw, ucell, d, cfg, res, info, label):
     r_nn, _ = _min_image_pairs(np, np.asarray(full.atoms.pos), bv, [True, True, True], 0)
     cutoff = cfg.get('cutoff')
     cutoff = 0.5 if cutoff is None else cutoff
-    thresh = min(cutoff, 0.45 * r_nn)
+    thresh = min(cutoff, 0.3 * r_nn)
     if disl.natoms <= 1500:
         rmin, pair = _min_image_pairs(np, np.asarray(disl.atoms.pos), nv, exp_pbc, thresh, across_only=True)
         if rmin < thresh:
